@@ -58,6 +58,11 @@ def main():
     history = [Operation(m, OperationType.CONTEXT, OperationStatus.STARTED, sub_type=OperationSubType.PARALLEL),
                Operation(b1, OperationType.CONTEXT, OperationStatus.STARTED, parent_id=m, sub_type=OperationSubType.PARALLEL_BRANCH),
                Operation(b2, OperationType.CONTEXT, OperationStatus.STARTED, parent_id=m, sub_type=OperationSubType.PARALLEL_BRANCH)]
+    if req.get("ready_step"):
+        # the surviving branch's step already exists with status READY (it failed once, its retry timer has fired): an at-least-once step then
+        # sends no START before its function is entered
+        bc = DurableContext(state=Mock(), execution_context=Mock(), parent_id=b2)
+        history.append(Operation(bc._create_step_id_for_logical_step(1), OperationType.STEP, OperationStatus.READY, parent_id=b2, name="slow-step", step_details=StepDetails(attempt=1)))
     release_slow = threading.Event()
     ran = []
 
